@@ -28,7 +28,54 @@ var tokenizerFuncs = map[string]bool{
 	"utils.strPathV03": true, "utils.SplitPaths": true,
 }
 
+// parentCut: GetParentPath removes the LAST element by position. A textual search for "/"+last finds
+// the first place where that text occurs (/a/state-machine/state → /a-machine/state), and every caller
+// that walks up the ancestors (tombstone search, cascade) then looks at paths that do not exist.
+func parentCut(c *engine.Ctx, id string) {
+	o := c.Custom(id, "helper shape(GetParentPath)", "utils/path.GetParentPath returns \"\" under len(SplitPath(path)) <= 1 and otherwise the prefix of path that ends where its last SplitPath element begins: path[0 : len(path)-len(last)-1] (or strings.TrimSuffix(path, \"/\"+last)); no search for the element's text",
+		"the parent of a path is that path without its last element, wherever the same text occurs earlier in the path")
+	defer o.Done(2)
+	ps, err := c.A.PathsOpt(pkgUtilsPath, engine.PathOpts{Roots: []string{"utils/path.GetParentPath"}, Exact: true, NoInline: true})
+	if err != nil || len(ps) == 0 {
+		o.Undecided(pkgUtilsPath, fmt.Sprintf("no paths for GetParentPath: %v", err))
+		return
+	}
+	const split = "utils.SplitPath($path)"
+	last := split + "[(len(" + split + ") - 1)]"
+	accepted := map[string]bool{
+		"$path[0:((len($path) - len(" + last + ")) - 1)]":  true,
+		"$path[:((len($path) - len(" + last + ")) - 1)]":   true,
+		"strings.TrimSuffix($path,(\"/\" + " + last + "))": true,
+	}
+	for _, p := range ps {
+		ret := &p.Events[len(p.Events)-1]
+		if ret.Kind != engine.EvReturn || len(ret.Results) != 1 {
+			continue
+		}
+		o.Site(c.P.Pos(ret.Pos) + " " + ret.Results[0])
+		o.Eval(1)
+		short := false
+		for _, l := range engine.CondsBefore(p, len(p.Events)-1) {
+			if l.L == "len("+split+")" && (l.R == "1" && l.Mask&4 == 0 || l.R == "2" && l.Mask == 1) {
+				short = true
+			}
+		}
+		switch {
+		case short && ret.Results[0] != `""`:
+			o.Fail(&engine.Violation{Key: "GetParentPath|root", Pos: c.P.Pos(ret.Pos), Func: p.Root.Name(), Msg: "a path of at most one element has the parent " + ret.Results[0] + " where \"\" is required"})
+		case !short && !accepted[ret.Results[0]]:
+			o.Fail(&engine.Violation{Key: "GetParentPath|cut", Pos: c.P.Pos(ret.Pos), Func: p.Root.Name(),
+				Msg: "the parent is computed as " + c.Render(ret.Results[0]) + ", not by cutting the path where its last element begins: the same text earlier in the path is hit first"})
+		}
+	}
+}
+
 func runC16(c *engine.Ctx, tier string) {
+	parentCut(c, "C16.10")
+	// "for all element names and key values the system accepts": what the northbound accepts must be what the parser reads
+	if ps, err := c.A.PathsOpt(pkgNbGnmi, engine.PathOpts{Roots: []string{".Server.doUpdateOrReplace", ".Server.doDelete"}, NoInline: true}); err == nil {
+		keyValuesChecked(c, "C16.11", ps)
+	}
 	oneTokenizer(c)
 	escapeAgreement(c)
 	escaperShape(c)
